@@ -16,6 +16,7 @@ func init() {
 type vdS2 struct {
 	A int    `json:"a"`
 	B string `json:"b"`
+	S []int8 `json:"s"`
 }
 
 // Results depend only on the arguments: after an ARBITRARY first call (symbolic
@@ -25,7 +26,12 @@ type vdS2 struct {
 func H_C11_after_any_call(t *verifrt.T) {
 	n := t.Param("N")
 	first := t.Bytes("first", n)
-	switch t.Choice("first-call", 6) {
+	switch t.Choice("first-call", 7) {
+	case 6:
+		// a well-formed first document that fills pooled scratch storage with symbolic values
+		d := append([]byte(`{"s":[`), first[0]%8+'1', ',', first[1%len(first)]%8+'1', ',', '7')
+		var v vdS2
+		Unmarshal(append(d, `],"b":"zz"}`...), &v)
 	case 0:
 		var v vdS2
 		Unmarshal(first, &v)
@@ -44,7 +50,14 @@ func H_C11_after_any_call(t *verifrt.T) {
 	case 5:
 		Valid(first)
 	}
-	switch t.Choice("second-call", 5) {
+	switch t.Choice("second-call", 6) {
+	case 5:
+		var v vdS2
+		err := Unmarshal([]byte(`{"s":[null,4,null],"a":null}`), &v)
+		t.Assert("unmarshal-null-elements-fixed-answer", verifrt.And(err == nil, len(v.S) == 3, v.A == 0))
+		if err == nil && len(v.S) == 3 {
+			t.Assert("null-elements-are-zero", verifrt.And(v.S[0] == 0, v.S[1] == 4, v.S[2] == 0))
+		}
 	case 0:
 		var v vdS2
 		err := Unmarshal([]byte(`{"a":5,"b":"x"}`), &v)
